@@ -65,7 +65,9 @@ def cases(tier, seed):
         out.append({"id": "ms1-large-%d" % i, "kind": "ms1", "m": [1.2, 0.0], "x": xx, "nmed": 1.0, "wl": 0.6, "pol_angle": 0.4, "cost": 60, "timeout": 1500})
     # small clusters solved by the multi-sphere theory: the same relations between its two public entry points (F134)
     for i in range(6 if tier == "quick" else 80):
-        out.append({"id": "cluster-%d" % i, "kind": "cluster", "nsph": 2 + i % 2, "seed": [seed, "cluster", i], "cost": 60, "timeout": 1500})
+        out.append({"id": "cluster-%d" % i, "kind": "cluster", "nsph": 2 + i % 2, "seed": [seed, "cluster", i], "cost": 60, "timeout": 1500,
+                    # every third one is a pair whose centres are a whole number of half wavelengths apart (k d = N pi: F143)
+                    "kd_pi": (2 + i // 3) if i % 3 == 1 else None})
     # layered spheres with a strongly absorbing (metallic) shell, up to size parameters of several hundred
     for i, kR in enumerate([20.0, 100.0, 190.0, 200.0, 261.0, 400.0]):
         out.append({"id": "lay-metal-%d" % i, "kind": "metal_shell", "kR": kR, "shell": [0.16, 4.9], "core": 1.45, "frac": [0.9, 0.8, 0.5][i % 3], "cost": 3})
@@ -123,6 +125,11 @@ def _run_cluster(case):
     rng = rng_for(*case["seed"])
     o = scat.gen_optics(rng)
     cl = scat.gen_cluster(rng, o, case["nsph"], xmax=3.0, xmin=0.8, gap=(0.05, 0.6), absorbing=False)
+    if case.get("kd_pi"):
+        d_ = case["kd_pi"] * o["illum_wavelen"] / (2 * o["medium_index"])
+        r_ = 0.3 * d_
+        cl = {"t": "spheres", "members": [{"t": "sphere", "n": scat.gen_index(rng, o, False), "r": r_, "c": [0.5, 0.25, 10.0]},
+                                          {"t": "sphere", "n": scat.gen_index(rng, o, False), "r": r_ * 0.9, "c": [0.5 + d_, 0.25, 10.0]}]}
     s = scat.build_scatterer(cl)
     th = Multisphere(qeps1=1e-12, qeps2=1e-14, eps=1e-12)
     nmed, wl, pol = o["medium_index"], o["illum_wavelen"], np.asarray(o["illum_polarization"], dtype=float)
